@@ -45,6 +45,14 @@ Theorem C10_decode_sound :
     exists pre, concat cs = pre ++ concat cs' /\ FrameBytesAny f pre /\ flen f = blen (payload f).
 Proof. exact decode_sound. Qed.
 
+(* A whole stream of frames: k successive decoder calls on the same reader (decode_many, FrameProofs.v) over any split
+   of the concatenated encodings return the frames in order and leave what follows them. *)
+Theorem C10_decode_stream :
+  forall (fs : list frame) (rest : bytes) (cs : chunks),
+    Forall wf fs -> wf_chunks cs -> concat cs = concat (map encode fs) ++ rest ->
+    exists cs', decode_many (length fs) cs = Ok (map norm fs, cs') /\ concat cs' = rest /\ wf_chunks cs'.
+Proof. exact decode_many_encode. Qed.
+
 (* Truncated input — any strict prefix of an encoding, delivered under any split — yields a read error. *)
 Theorem C10_decode_truncated :
   forall (f : frame) (b : bytes) (cs : chunks),
@@ -183,6 +191,7 @@ Print Assumptions C10_layout_unique.
 Print Assumptions C10_decode_encode.
 Print Assumptions C10_decode_any_layout.
 Print Assumptions C10_decode_sound.
+Print Assumptions C10_decode_stream.
 Print Assumptions C10_decode_truncated.
 Print Assumptions C10_reserved_opcode_rejected.
 Print Assumptions C10_valid_opcode_not_rejected.
